@@ -74,7 +74,7 @@ theorem int_range {id : Nat} {i : Int} (h : numOk id (.int i) = true) : minInt64
 
 theorem ok_num {t : Ty} {n : Num} {id : Nat} (h : (Val.num t n).ok = true) (hp : t.primId? = some id) :
     numOk id n = true := by
-  simp [Val.ok, hp] at h; exact h.2.2
+  simp [Val.ok, hp] at h; exact h.2
 
 theorem min_neg : minInt64 < 0 := by decide
 theorem max_pos : 0 < maxInt64 := by decide
